@@ -155,6 +155,7 @@ class OriginDomain:
         if isinstance(recv, ExtName): return ExtName(f"{recv.q}.{name}")
         if name == "T": return O(org_of(recv))
         if name in ("shape", "ndim", "size", "dtype"): return O({"const"})
+        if name in getattr(self, "scalar_attrs", ()): return O({"const"})      # validated scalars: immutable numbers
         base = ast.unparse(node.value)
         if isinstance(recv, O) and owned(recv.org) and not base.startswith("self"):
             # attribute of a value derived from owned data: conservatively the same origins
